@@ -21,6 +21,7 @@ impl ManagementMessage {
     pub(crate) fn serialize_content(&self, buffer: &mut [u8]) -> Result<(), crate::Error> {
         self.target_port_identity
             .serialize(buffer.get_mut(0..10).ok_or(Error::BufferTooShort)?)?;
+        *buffer.get_mut(10).ok_or(Error::BufferTooShort)? = 0; // reserved
         *buffer.get_mut(11).ok_or(Error::BufferTooShort)? = self.starting_boundary_hops;
         *buffer.get_mut(12).ok_or(Error::BufferTooShort)? = self.boundary_hops;
         *buffer.get_mut(13).ok_or(Error::BufferTooShort)? = self.action.to_primitive();
